@@ -50,10 +50,15 @@ THEOREMS = [
     'CC.C11_model_bounded',
     'CC.C11_model_output_bounded',
     'CC.C11_model_flow_exp',
+    # round 5c: the bound composed with the accessor rows of C10 (CC.Properties.C11Accessors)
+    'CC.C11_row_sq_le',
+    'CC.C11_model_state_norm_bounded',
+    'CC.C11_reported_bounded_after_sources',
+    'CC.C11_reported_rest',
 ]
-LEAN_MODULE_EXTRA = ['CC.Properties.C11Flow']
+LEAN_MODULE_EXTRA = ['CC.Properties.C11Flow', 'CC.Properties.C11Accessors']
 OPEN_STATEMENTS = ['not formalised: that the SIMULATED samples follow the flow — the flow clause is proved for exact solutions of ẋ = A x + B u(t) with the model\'s A, B over ℝ (C11_model_flow, C11_model_bounded, C11_model_flow_exp: stored energy antitone and states / outputs bounded on every interval on which all sources are zero); scipy.signal.lsim (zero-order/first-order hold discretisation, numerical exp(A·Δt), the sampling grid and the interpolation of the input between samples in TransientSolution) and binary64 rounding are not modelled, so the sampled-energy clause on the implementation stays oracle only',
-                   'not composed: the output bound C11_model_output_bounded is for the rows of the model\'s C matrix (all nodal unknowns y = C x + D u); the reported potentials / voltages / currents are functions of y and ẋ by C10_output_rows (CC.Properties.C10Rows), but a bound stated for the c_row_* / d_row_* accessors themselves is not derived']
+                   'composed in round 5c (CC.Properties.C11Accessors): C11_reported_bounded_after_sources — for every node label / branch the c_row_* / d_row_* accessor rows exist, row_c·x(t) + row_d·u(t) is the reported potential / voltage / current (C10_rows_*), and for all t >= t1 (u = 0 on [t1, inf)) its square is <= (sum_j row_c[j]^2)·(2/lam)·E(t1), 0 < lam <= every C, L; C11_reported_rest — energy 0 at t1 (positive C, L) => every reported quantity is exactly 0 for t >= t1. Still outside: the constant is the plain Cauchy–Schwarz one (not the tighter weighted sum_j row_c[j]^2/w_j); the bound is for exact solutions of the ODE over ℝ (lsim, sampling and binary64 not modelled, see the first entry); powers (products of two reported quantities) are not stated separately']
 ASSUMPTIONS = [
     'C11_model_lyapunov / C11_model_eig are proved for the executable model (every RLC network without negative conductances, any certificates); the exact definiteness oracle checks the same inequality on the implementation\'s A on every run',
     'scipy.signal.lsim reproduces exp(A·Δt) (sampled-energy clause only); the flow theorems (C11_flow_*, C11_model_flow*) speak about exact solutions of the differential equation over ℝ, not about lsim',
@@ -228,6 +233,10 @@ def run(ctx, out):
         # domain (no source, 3–4 sources, no resistor — lossless LC —, up to nine nodes, V = 0)
         if rng.random() < (0.3 if ctx.quick else 1.0):
             check_case(ctx, out, gs.with_maps(rng, desc), 'index_maps'); out.count('index_map_cases')
+        if rng.random() < (0.35 if ctx.quick else 1.0):
+            di = gs.with_int_values(rng, desc)
+            if gs.nondegenerate(ctx.driver, di)[0]:
+                check_case(ctx, out, di, 'int_values'); out.count('int_value_cases')
         if rng.random() < (0.25 if ctx.quick else 1.0):
             for _ in range(40):
                 dw = gs.wide_desc(rng)
